@@ -48,6 +48,8 @@ class Leaf:
                 cs.append(z3.And(z3.ULE(c, 0x10ffff), z3.Or(z3.ULT(c, 0xd800), z3.UGT(c, 0xdfff))))
             elif k == 'jsstr':      # inside a double-quoted JS string literal, no escapes
                 cs.append(z3.And(z3.ULE(c, 0x10ffff), z3.Or(z3.ULT(c, 0xd800), z3.UGT(c, 0xdfff)), c != 34, c != 92, c != 10, c != 13, c != 0x2028, c != 0x2029))
+            elif k == 'jsstrx':     # any JS string value; written into the source with escapes (render_js_str)
+                cs.append(z3.And(z3.ULE(c, 0x10ffff), z3.Or(z3.ULT(c, 0xd800), z3.UGT(c, 0xdfff))))
             elif k == 'comment':
                 cs.append(z3.And(z3.ULE(c, 0x10ffff), z3.Or(z3.ULT(c, 0xd800), z3.UGT(c, 0xdfff)), c != 0))
                 if i + 1 < len(self.chars):
@@ -73,6 +75,20 @@ def render_text(s):
         crlf = (c == '\r' and s[i + 1:i + 2] == '\n') or (c == '\n' and i > 0 and s[i - 1] == '\r')
         if c in '{}<>&' or crlf:
             out.append('&#%d;' % ord(c))
+        else:
+            out.append(c)
+    return ''.join(out)
+
+
+def render_js_str(s):
+    """inside a double-quoted JavaScript string literal"""
+    out = []
+    for c in s:
+        o = ord(c)
+        if c in '"\\':
+            out.append('\\' + c)
+        elif o < 32 or o in (0x7f, 0x2028, 0x2029):
+            out.append('\\u%04x' % o)
         else:
             out.append(c)
     return ''.join(out)
@@ -116,6 +132,8 @@ class Skeleton:
                 s = render_text(s)
             elif l.kind == 'str':
                 s = render_attr_str(s)
+            elif l.kind == 'jsstrx':
+                s = render_js_str(s)
             d[l.name] = s
         return (template or self.template).format(**d)
 
@@ -308,7 +326,7 @@ def run_skeleton(it, e3, skel, oracle, stats=None, deadline=None, max_paths=2000
             world.run_module(it, ctx, pa, opts, ra, world.comments_map(ra))
             alt_pres.append(ia); alt_posts.append(pa); diags_all.append(list(ctx.diags))
         ctx.diags = diags_all[0]
-        env = Env(inp, pre, ctx.diags, opts, ctx, skel, {'comments': comments, 'resp': r0, 'posts': posts, 'diags_all': diags_all, 'variants': skel.variants,
+        env = Env(inp, pre, ctx.diags, dict(opts), ctx, skel, {'comments': comments, 'resp': r0, 'posts': posts, 'diags_all': diags_all, 'variants': skel.variants,
                                                          'alt_pres': alt_pres, 'alt_posts': alt_posts, 'post2': post2})
         ctx.env = env
         return oracle(env)
